@@ -293,3 +293,15 @@ package interval
 //@   ensures old(bigval(i)) <= bigval(i) && implies(old(bigval(i)) == 0, bigval(i) == 0)
 //@   ensures[allones] existsm(n, 0 <= n && n <= 65535 && bigval(i) == pow2(n) - 1 && implies(old(bigval(i)) > 0, n >= 1 && pow2(n - 1) <= old(bigval(i))))
 //@   modifies bigval(i)
+
+// And / Or: NOT verified (andMax / orMax are outside reach, see DESIGN.md); only
+// framed, so that callers in lang/check can be checked for memory safety.
+//@ func (IntRange).And
+//@   prop C06
+//@   trusted bit-and of two ranges: not verified; assumed to allocate its result and to leave its operands alone
+//@   ensures freshR(z)
+
+//@ func (IntRange).Or
+//@   prop C06
+//@   trusted bit-or of two ranges: not verified; assumed to allocate its result and to leave its operands alone
+//@   ensures freshR(z)
